@@ -100,6 +100,16 @@ def sym_attr(I, o, name):
     if isinstance(o, MDict):
         return SymMethod(o, name)
     t = _simpl(o.t)
+    if name == "__class__":
+        # type(x) / x.__class__ of a symbolic object: case split over the registered classes it can be
+        feas = [i for i in V.REG.by_id.values() if isinstance(i.pycls, type) and I.p.feasible(z3.And(V.is_VObj(t), V.cls_of(t) == i.cid))]
+        for i in feas[:-1]:
+            if I.p.branch(z3.And(V.is_VObj(t), V.cls_of(t) == i.cid), f"class-is-{i.name}"):
+                return i.pycls
+        if feas:
+            I.p.assume(z3.And(V.is_VObj(t), V.cls_of(t) == feas[-1].cid)) if entailed(I, V.is_VObj(t)) else None
+            return feas[-1].pycls
+        raise Unsupported("__class__ of a symbolic non-object")
     special = [i for i in V.REG.by_id.values() if name in i.computed or name in i.methods]
     if special:
         feas = [i for i in special if I.p.feasible(z3.And(V.is_VObj(t), V.cls_of(t) == i.cid))]
@@ -180,9 +190,10 @@ def contains(I, container, x):
             return x in container
         except TypeError as ex:
             raise PyRaise(ex)
-    if isinstance(container, (list, tuple, set, frozenset)) and len(container) > 3 and isinstance(x, SV) \
-            and all(isinstance(e, str) for e in container) and entailed(I, V.is_VStr(x.t)):
-        return z3.InRe(V.vs(x.t), z3.Union(*[z3.Re(str(e)) for e in container]))
+    if isinstance(container, (list, tuple, set, frozenset, dict)) and len(container) > 8 and isinstance(x, SV) \
+            and all(isinstance(e, str) for e in container):
+        # large literal string sets: regular-expression membership (same encoding as spec.in_strs)
+        return z3.And(V.is_VStr(x.t), z3.InRe(V.vs(x.t), z3.Union(*[z3.Re(str(e)) for e in container])))
     if isinstance(container, (list, tuple, set, frozenset)):
         alts = [I.eq(x, e) for e in container]
         if any(a is True for a in alts):
@@ -1476,6 +1487,17 @@ def _hasattr(I, args, kwargs):
 @model(print)
 def _print(I, args, kwargs):
     return None
+
+
+@model(type)
+def _type(I, args, kwargs):
+    if len(args) == 1 and isinstance(args[0], SV):
+        return sym_attr(I, args[0], "__class__")
+    if len(args) == 1 and isinstance(args[0], Obj):
+        return args[0].cls
+    if deep_symbolic(args):
+        raise Unsupported("type() with symbolic arguments")
+    return type(*args)
 
 
 import keyword as _keyword   # noqa
